@@ -85,7 +85,7 @@ def r1(ctx, config="A"):
                 detail["discharged_by"] = d[0] + ": " + d[1][:200]
                 ctx.ok(rule, s.key, detail)
             continue
-        ent = TT.table_entry(table, s)
+        ent = TT.table_entry(table, s, T)
         if ent is not None:
             stats["D6"] += 1
             used.add(s.key)
